@@ -329,6 +329,9 @@ DEFINE_REPLAY = """
 from measured import Dimension, Length, Time, Number
 a, b = {a}, {b}
 D = Length**a * Time**b                      # a derived dimension known before the definition
+if D.name is not None:                       # the model's derived dimension is anonymous: take one nobody named
+    a, b = a + 11, b - 13
+    D = Length**a * Time**b
 n = len(Length.exponents)
 New = Dimension.define(name='c02 fresh dimension', symbol='c02fd')
 print('exponents before/after:', n, len(Length.exponents), len(D.exponents), len(New.exponents))
